@@ -43,7 +43,14 @@ def judge(ctx):
     res, met, m = ctx.cout["result"], ctx.met, ctx.m
     content = res["content"]
     if met is None:
-        return [Failure("no metrics in an accepted result")]
+        return [Failure("metrics: no status is reported for an accepted result")]
+    if content is None:      # the model's side: no printed text, the tree-level part only
+        hooks = m.get("out_hook_count", 0) - m.get("in_hook_count", 0) - (m.get("prologue_hook_count", 0) if met["status"] == "modified" else 0)
+        if met["status"] == "notmodified" and hooks > 0:
+            return [Failure("status notmodified but hook calls were emitted into the tree")]
+        if met["status"] == "modified" and hooks < 1:
+            return [Failure("status modified but no hook call was emitted")]
+        return []
     hooks = None
     if "out_hook_count" in m:
         hooks = m["out_hook_count"] - m.get("in_hook_count", 0) - (m.get("prologue_hook_count", 0) if ctx.modified else 0)
@@ -78,10 +85,6 @@ def judge(ctx):
     return out
 
 
-def projection(ctx):
-    return E.model_ok(ctx)
-
-
 def nontrivial(ctx):
     return ctx.ok
 
@@ -107,7 +110,9 @@ def run(O, P):
             nm = 0
             for j, rr in zip(jobs, res):
                 O.evaluations += 1
-                st = j["response"]["metrics"]["status"]
+                st = (j["response"].get("metrics") or {}).get("status")
+                if st is None:
+                    continue      # already reported by the tree-level part
                 for which in ("cache", "noncache"):
                     got = rr[which]
                     if st == "notmodified":
